@@ -179,7 +179,7 @@ func (c *C10Case) Run() (res stat.Result) {
 	plain := *c
 	plain.NoPlan = true
 	plain.Depth, plain.FreshG = 0, false
-	want := plain.Transcript()
+	want := wireForm(plain.Transcript())
 	stdEnc, _ := json.Marshal(c.value())
 	if i, j := strings.Index(want, "enc="), strings.Index(want, " back="); i >= 0 && j > i {
 		// ConfigStd output must be token-equal to encoding/json, and what was decoded back re-encodes to the same
